@@ -10,6 +10,7 @@ import (
 	"io"
 	"mime/multipart"
 	"net"
+	"net/textproto"
 	"os"
 	"sync"
 	"sync/atomic"
@@ -1256,7 +1257,15 @@ func WriteMultipartForm(w io.Writer, f *multipart.Form, boundary string) error {
 	// marshal files
 	for k, fvv := range f.File {
 		for _, fv := range fvv {
-			vw, err := mw.CreatePart(fv.Header)
+			// The part is named by the key it is stored under and by its
+			// current file name: the header the file was parsed with may
+			// say something else by now (or may not exist at all).
+			h := make(textproto.MIMEHeader, len(fv.Header)+1)
+			for hk, hv := range fv.Header {
+				h[hk] = hv
+			}
+			h.Set("Content-Disposition", multipart.FileContentDisposition(k, fv.Filename))
+			vw, err := mw.CreatePart(h)
 			if err != nil {
 				return fmt.Errorf("cannot create form file %q (%q): %w", k, fv.Filename, err)
 			}
